@@ -246,11 +246,20 @@ def run(ctx):
         if not ok:
             ctx.violation("a recorded CallbackBatcher run is not a behaviour of Batcher.tla",
                           dict(rej or {"violated": res.violated}, trace_seed=ctx.seed * 100 + i))
+        conc_cfg = {}
         for n in (1, 2, 3):
             ct = "%s-conc-n%d.ndjson" % (prefix, n)
-            cfg = "Trace_NotifyXfrReqConc_n%d%s" % (n, "_asbuilt" if conc_open else "")
+            cfg = "Trace_NotifyXfrReqConc_n%d" % n
             ok, res, rej = ctx.validate_trace("Trace_NotifyXfrReqConc", cfg, ct,
                                               label="trace-conc-%d-n%d" % (i, n))
+            if not ok and conc_open:
+                # the run is not one of the specified design; is it one of the code as built?
+                cfg += "_asbuilt"
+                ok, res, rej2 = ctx.validate_trace("Trace_NotifyXfrReqConc", cfg, ct,
+                                                   label="trace-conc-%d-n%d-asbuilt" % (i, n))
+                if ok:
+                    ctx.known(CONC_DEV, {"trace": "conc-n%d" % n, "rejected_by_specified_model": rej})
+            conc_cfg[n] = cfg
             ctx.traces += 1
             if not ok:
                 ctx.violation("a recorded concurrency scenario is not a behaviour of NotifyXfrReqConc.tla",
@@ -293,20 +302,15 @@ def run(ctx):
             for j, l in enumerate(lines):
                 o = json.loads(l)
                 if o["ev"] == "rest":
-                    o["active"] += 1 if not conc_open else 0
-                    if conc_open and o["active"] < 2:
-                        continue
+                    o["active"] += 1
                     badp = os.path.join(ctx.work, "bad-conc.ndjson")
                     open(badp, "w").write("\n".join(lines[:j] + [json.dumps(o)] + lines[j + 1:]) + "\n")
-                    # with the finding open the recorded over-limit run itself must be
-                    # rejected by the *specified* model
-                    ok2, _, _ = ctx.validate_trace("Trace_NotifyXfrReqConc", "Trace_NotifyXfrReqConc_n1", badp,
+                    ok2, _, _ = ctx.validate_trace("Trace_NotifyXfrReqConc", conc_cfg[1], badp,
                                                    label="trace-selftest-conc")
-                    ctx.selftest("a scenario with more running transfers than permits is rejected by the specified model",
-                                 not ok2)
+                    ctx.selftest("a scenario with one more running transfer than recorded is rejected", not ok2)
                     break
             else:
-                raise vlib.ToolError("concurrency trace has no (over-limit) rest event")
+                raise vlib.ToolError("concurrency trace has no rest event")
     need = ["multi_msg", "notify_ok", "passed", "refused", "udp_soa_only", "wrapped", "xfr_streams"]
     vac = [k for k in need if not tot.get(k)]
     if vac:
